@@ -70,4 +70,9 @@ dbus_bool_t bus_driver_send_ack_reply     (DBusConnection  *connection,
                                            DBusMessage     *message,
                                            DBusError       *error);
 
+#ifdef DBUS_VERIF_HOOKS
+void _bus_verif_preset_unique_name_counter (int major,
+                                            int minor);
+#endif
+
 #endif /* BUS_DRIVER_H */
